@@ -7,7 +7,7 @@
    PARTIAL: the constructors of stochastic objects and molecules are not modelled; their rejection rules and
    termination are checked on the malformed stream (breaking operators, byte-level mutations, 2 s limit). *)
 From Coq Require Import List ZArith QArith Ascii String Bool.
-From GBS Require Import Model.PyStr Model.Num Model.Bond Model.Token Model.SysSplit Model.DistFam Src.SrcDist Proofs.TotalP Proofs.DistP Model.Stoch Proofs.StochP Model.Mol Proofs.MolP Model.SystemM Proofs.SystemP Src.SrcStoch Src.SrcGenerable Proofs.GenerableSrcP.
+From GBS Require Import Model.PyStr Model.Num Model.Bond Model.Token Model.SysSplit Model.DistFam Src.SrcDist Proofs.TotalP Proofs.DistP Model.Stoch Proofs.StochP Model.Mol Proofs.MolP Model.SystemM Proofs.SystemP Src.SrcStoch Src.SrcGenerable Proofs.GenerableSrcP Src.SrcDescr Proofs.DescrSrcP Src.SrcToken Proofs.TokenSrcP Src.SrcStochParse Proofs.StochParseSrcP Model.SysSplit Src.SrcSysParse Proofs.SysParseSrcP.
 Import ListNotations.
 Open Scope Z_scope.
 
@@ -102,6 +102,17 @@ Theorem C15_generable_chain_is_source : forall (d : descr) (t : token) (s : psto
   stoch_generable_src (map generable_descr (ps_bds s)) (map token_generable (ps_rep s ++ ps_end s)) (ps_dist s) true true = stoch_generable s.
 Proof. intros d t s. split; [apply descr_generable_is_source|]. split; [apply token_generable_is_source|apply stoch_generable_is_source]. Qed.
 Print Assumptions C15_generable_chain_is_source.
+
+(* tie T: the parsers whose totality and rejections are proved above are the ones rebuilt from the source's own expressions *)
+Theorem C15_parsers_are_source : forall (valid_atom : str -> bool),
+  (forall raw n pre atom, parse_descr_src raw n pre atom = parse_descr raw n pre atom) /\
+  (forall text off, parse_token_src valid_atom text off = parse_token valid_atom text off) /\
+  (forall text, parse_stoch_src valid_atom text = parse_stoch valid_atom text) /\
+  (forall fuel text acc, split_system_src fuel text acc = split_system fuel text acc).
+Proof.
+  intros va. split; [exact parse_descr_is_source|]. split; [exact (parse_token_is_source va)|]. split; [exact (parse_stoch_is_source va)|exact split_system_is_source].
+Qed.
+Print Assumptions C15_parsers_are_source.
 
 Example C15_example :
   (exists m, parse_token (fun _ => true) (lit "C[$]C") 0 = Err ERuntime m) /\
